@@ -6,6 +6,7 @@ only by the controller (or an immediately-finishing coroutine).
 from __future__ import annotations
 
 import asyncio
+import math
 
 from graphql import GraphQLError
 from graphql.type import (
@@ -17,6 +18,23 @@ from graphql.type import (
 )
 
 from .model import BAD
+
+# Values no coercion of the named leaf type accepts: a field error by the specification.
+# Boundary cases (one past the Int range, non-finite floats, a float for an ID ...) sit next
+# to the out-of-domain object, selected by a draw the plan makes anyway.
+_BAD_BY_TYPE = {
+    "Int": (BAD, 2 ** 31, -(2 ** 31) - 1, 1.5, "x", math.inf, 10 ** 20),
+    "Float": (BAD, math.inf, -math.inf, math.nan, "x"),
+    "String": (BAD, {"a": 1}, [1]),
+    "Boolean": (BAD, "x", math.nan),
+    "ID": (BAD, 1.5, {"a": 1}, True),
+    "Color": (BAD, "PURPLE", 7),
+}
+
+
+def bad_value(t, k):
+    vs = _BAD_BY_TYPE.get(get_named_type(t).name, (BAD,))
+    return vs[k % len(vs)]
 from .plan import EXC_KINDS
 from .world import ABSTRACTS, OBJECTS, canon
 
@@ -146,7 +164,7 @@ class Request:
         elif fault == "raise":
             outcome = ("raise", make_exc(ip.exc, ip.msg, ipath))
         elif fault == "bad_leaf":
-            outcome = ("value", BAD)
+            outcome = ("value", bad_value(item_t, ip.exc))
         else:
             outcome = ("lazy", lambda: self.deliver_value(item_t, item, ipath))
         if ip.delivery == "sync" or self.force_sync:
@@ -259,7 +277,7 @@ class Request:
         elif fault == "null":
             outcome = ("value", None)
         elif fault == "bad_leaf":
-            outcome = ("value", BAD)
+            outcome = ("value", bad_value(t, fp.exc))
         elif fault == "not_iterable":
             outcome = ("value", 12345)
         else:
